@@ -49,6 +49,17 @@ pub fn ops_violation<F: Field>(c: &Circuit<F>, w: &[F], publics: &[F]) -> Option
 /// overwriting a slot that is already fixed (inputs, constants, earlier ops). It performs none of
 /// the honest runner's side checks. Unfilled slots get zero.
 pub fn byzantine_assignment<F: Field>(c: &Circuit<F>, publics: &[F], privates: &[F]) -> Vec<F> {
+    byzantine_assignment_dev(c, publics, privates, None)
+}
+
+/// Number of hint output slots of the circuit (the deviation space of `byzantine_assignment_dev`).
+pub fn hint_outputs<F: Field>(c: &Circuit<F>) -> usize {
+    c.ops.iter().map(|op| if let Op::Hint { outputs, .. } = op { outputs.len() } else { 0 }).sum()
+}
+
+/// Like `byzantine_assignment`; `deviate_hint = Some(k)`: the k-th hint output of the circuit (in
+/// op order) is the honest value plus one — hint outputs are constrained by the emitted ops only.
+pub fn byzantine_assignment_dev<F: Field>(c: &Circuit<F>, publics: &[F], privates: &[F], deviate_hint: Option<usize>) -> Vec<F> {
     let n = c.witness_count as usize;
     let mut w: Vec<Option<F>> = vec![None; n];
     for (i, wid) in c.public_rows.iter().enumerate() {
@@ -74,6 +85,7 @@ pub fn byzantine_assignment<F: Field>(c: &Circuit<F>, publics: &[F], privates: &
     // op further down, e.g. an operand pinned backwards by a later op)
     for _sweep in 0..8 {
     let known_before = w.iter().filter(|x| x.is_some()).count();
+    let mut hint_base = 0usize;
     for op in &c.ops {
         match op {
             Op::Const { out, val } => setif(&mut w, *out, *val),
@@ -130,12 +142,14 @@ pub fn byzantine_assignment<F: Field>(c: &Circuit<F>, publics: &[F], privates: &
                     }
                 }
                 if executor.execute(inputs, outputs, &mut tmp).is_ok() {
-                    for o in outputs {
+                    for (oi, o) in outputs.iter().enumerate() {
                         if let Some(v) = tmp[o.0 as usize] {
-                            setif(&mut w, *o, v);
+                            let dev = deviate_hint == Some(hint_base + oi);
+                            setif(&mut w, *o, if dev { v + F::ONE } else { v });
                         }
                     }
                 }
+                hint_base += outputs.len();
             }
             Op::NonPrimitiveOpWithExecutor { .. } => {}
         }
